@@ -50,8 +50,48 @@ func ZzC08() {
 			return nil
 		})
 	}
+	faulted := false
+	if !unsynced && zz.Param("FAULTS", 0) == 1 && sc.valid() && sc.from == sc.tailH && !whole && zz.Bool("fault.during") {
+		// one datastore write of the deletion fails (transient fault); the caller retries from the new tail
+		sc.d.failFrom = sc.d.writes + 1 + zz.Choice("fault.at", 2*int(sc.to-sc.from)+1)
+		sc.d.failN = 1
+		faulted = true
+	}
 	err := s.DeleteRange(ctx, sc.from, sc.to)
 	zz.ObserveBool("err_nil", err == nil)
+	if faulted && err != nil {
+		zz.Reach("failed-part-way")
+		head, e1 := s.Head(ctx)
+		tail, e2 := s.Tail(ctx)
+		zz.Assert(e1 == nil && e2 == nil && tail.H <= head.H, "after a deletion that failed part-way Tail and Head still exist with Tail <= Head")
+		for i := 0; i < K; i++ {
+			if !sc.inRange(i) {
+				bh, bx, has := zzReadable(ctx, s, sc.chain[i])
+				zz.Assert(bh && bx && has, "a deletion that failed part-way leaves the headers outside the range untouched")
+			}
+		}
+		if e2 != nil {
+			return
+		}
+		// retrying the tail-side deletion from wherever the tail is now completes it
+		if tail.H < sc.to {
+			err = s.DeleteRange(ctx, tail.H, sc.to)
+			zz.Reach("retried")
+			zz.Assert(err == nil, "retrying a tail-side deletion completes it")
+		}
+		// (when only the rewrite of the tail pointer failed there is nothing left to retry)
+		for i := 0; i < K; i++ {
+			bh, bx, has := zzReadable(ctx, s, sc.chain[i])
+			if sc.inRange(i) {
+				zz.Assert(!bh, "deleted header still retrievable by height (after the retry)")
+				zz.Assert(!bx && !has, "deleted header still retrievable by hash (after the retry)")
+			} else {
+				zz.Assert(bh && bx && has, "header outside the deleted range must be untouched (after the retry)")
+			}
+		}
+		// what a reopened store makes of a failed pointer write is C06's subject: stop here
+		return
+	}
 
 	if !sc.valid() {
 		zz.Reach("rejected")
